@@ -763,6 +763,32 @@ func (c *FnCtx) evalCall(x *ECall, env *Env) (TV, error) {
 			k, s := c.g.heapKeyFor(p.Elem())
 			h := c.heap(env.st, k, s)
 			return TV{sel(h, args[0].t), p.Elem()}, nil
+		case "zero":
+			// zero(x): the zero value of x's type
+			args, err := evalArgs()
+			if err != nil {
+				return TV{}, err
+			}
+			if len(args) != 1 || args[0].typ == nil {
+				return TV{}, fmt.Errorf("zero takes one typed argument")
+			}
+			return TV{u.zero(args[0].typ), args[0].typ}, nil
+		case "unboxPtr":
+			// unboxPtr(x, pkg.T): the *T held by the interface value x (what x.(*T) yields when x holds one)
+			if len(x.Args) != 2 {
+				return TV{}, fmt.Errorf("unboxPtr(x, T)")
+			}
+			xv, err := c.evalSpec(x.Args[0], env)
+			if err != nil {
+				return TV{}, err
+			}
+			tt, err := c.g.resolveType("*"+x.Args[1].exprString(), env.pkg())
+			if err != nil {
+				return TV{}, err
+			}
+			un := "unbox_" + shortTypeName(tt)
+			u.declareFun(un, []Sort{SInt}, SInt)
+			return TV{mk(SInt, un, xv.t), tt}, nil
 		case "bytesOf":
 			args, err := evalArgs()
 			if err != nil {
